@@ -327,6 +327,14 @@ def s_graph_filter(rng):
 
 
 def s_graph_ops(rng):
+    gen.NUM_KIND = rng.choice(['int', 'float'])      # the graphs of one sequence meet in unions
+    try:
+        return _s_graph_ops(rng)
+    finally:
+        gen.NUM_KIND = None
+
+
+def _s_graph_ops(rng):
     base = gen.gen_graph(rng)
     if maybe(rng, 0.12) and base.triples:
         # ask, remove one triple, add another one (same length, same top, other sources), ask again
